@@ -187,6 +187,10 @@ def unit_term(case, obs):
 # ---------------------------------------------------------------------------
 
 KEYS = ["a", "b", "c", "d", "e", "spec", "cfg", "items", "ports", "tags", "name", "zone"]
+# ordinary keys that merely look like directives: user data, compared and sent like any other key
+NEAR_DIRECTIVE_KEYS = ["x-koreo-tenant", "x-koreo-note", "x-koreo-", "x-koreo", "x-koreo-compare-as-setx",
+                       "x-koreo-compare-as-set-not", "x-koreo-compare", "x-koreo-compare-as-", "X-KOREO-COMPARE-AS-SET",
+                       "x_koreo_compare_as_set", "koreo-compare-as-map", "x-koreo-compare-last-applied."]
 LEAVES = [0, 1, 2, -3, 7, 80, True, False, "", "a", "b", "x-y", "1", 1.5, 0.0, 2.0]
 SCALARS_SET = [0, 1, 2, 5, True, False, "a", "b", "c", "", 1.5]
 NAMES = ["n1", "n2", "alpha", "beta", "http", "x y", " pad "]
@@ -245,6 +249,8 @@ def gen_good(rng, depth, nulls=True, nkeys=None, owners=False):
     """a well-formed target: dict, directives (when present) well-formed"""
     n = rng.choice([0, 1, 2, 2, 3, 4]) if nkeys is None else nkeys
     keys = rng.sample(KEYS, min(n, len(KEYS)))
+    if rng.random() < 0.2:
+        keys.insert(rng.randrange(len(keys) + 1), rng.choice(NEAR_DIRECTIVE_KEYS))
     if owners or rng.random() < 0.06:
         keys.append(OWNERS)
     t, sk, mk, lk = {}, [], {}, []
@@ -1073,6 +1079,10 @@ def flow_body(rng, depth):
         body["metadata"] = {"labels": {"app": "x"}}
     elif r < 0.5:
         body["metadata"] = {"labels": {"app": "x"}, "annotations": {"note": "n"}}
+    if "metadata" in body and rng.random() < 0.4:
+        body["metadata"]["labels"][rng.choice(NEAR_DIRECTIVE_KEYS)] = "t1"
+        if "annotations" in body["metadata"] and rng.random() < 0.5:
+            body["metadata"]["annotations"][rng.choice(NEAR_DIRECTIVE_KEYS)] = "n2"
     if rng.random() < 0.3:
         body["data"] = gen_good(rng, 1, nulls=False)
     # an explicitly EMPTY metadata.annotations map, and a key compared against last-applied whose value is truthy
